@@ -87,6 +87,7 @@ package ggql
 //@ spec badExtraArgUpTo(fo *FieldDef, fi *FieldDef, n int) bool = exists j int {fo.args.list[j]} :: 0 <= j && j < n && ite(objArg(fi, fo.args.list[j].N) == nil, is(fo.args.list[j].Type, *NonNull), !sameT(objArg(fi, fo.args.list[j].N).Type, fo.args.list[j].Type))
 //@ spec fieldFits(fo *FieldDef, fi *FieldDef) bool = subT(fi.Type, fo.Type) && !missingArgUpTo(fo, fi, len(fi.args.list)) && !badExtraArgUpTo(fo, fi, len(fo.args.list))
 //@ func (*Object).validateField
+//@   check accumulate {C13}
 //@   props C03 C13
 //@   check panic {C03}
 //@   requires t != nil && fo != nil && fi != nil
@@ -108,6 +109,7 @@ package ggql
 //@ stable provides
 //@ axiom providesUnfold(t *Object, i *Interface): provides(t, i) <==> providesDef(t, i)
 //@ func (*Object).validateInterface
+//@   check accumulate {C13}
 //@   props C03 C13
 //@   check panic {C03}
 //@   requires t != nil && i != nil
@@ -126,6 +128,7 @@ package ggql
 //@ spec badInterfaceUpTo(t *Object, n int) bool = exists j int {t.Interfaces[j]} :: 0 <= j && j < n && badInterface(t, t.Interfaces[j])
 //@ axiom validDefObject(t *Object): t != nil ==> (validDef(box(t)) <==> (len(t.fields.list) > 0 && !badFieldUpTo(t.fields.list, len(t.fields.list)) && !badInterfaceUpTo(t, len(t.Interfaces))))
 //@ func (*Object).Validate
+//@   check accumulate {C13}
 //@   props C03 C13
 //@   check panic {C03}
 //@   requires t != nil
@@ -147,6 +150,7 @@ package ggql
 //@ spec onlyRootFields(t *Schema) bool = forall name string {t.fields.dict[name]} :: has(t.fields.dict, name) ==> rootFieldName(name)
 //@ axiom validDefSchema(t *Schema): t != nil ==> (validDef(box(t)) <==> (onlyRootFields(t) && validDef(box(embed0(t)))))
 //@ func (*Schema).Validate
+//@   check accumulate {C13}
 //@   props C03 C13
 //@   check panic {C03}
 //@   requires t != nil && root != nil
@@ -166,6 +170,7 @@ package ggql
 //@ spec badDirArgUpTo(as []*Arg, n int) bool = exists j int {as[j]} :: 0 <= j && j < n && badDirArg(as[j])
 //@ axiom validDefDirective(t *Directive): t != nil ==> (validDef(box(t)) <==> (!badLocUpTo(t.On, len(t.On)) && !badDirArgUpTo(t.args.list, len(t.args.list))))
 //@ func (*Directive).Validate
+//@   check accumulate {C13}
 //@   props C03 C13
 //@   check panic {C03}
 //@   requires t != nil && root != nil
